@@ -383,7 +383,10 @@ type Net struct {
 	SyncServe func(from, to int, req *proto.SyncRequest, ctx context.Context) (chan *proto.BeaconPacket, error)
 	// DropChoice: when true every partial delivery asks the explorer deliver(0)/drop(1)
 	DropChoice bool
-	Log        func(string, ...any)
+	// Latency is the virtual time every RPC spends on the wire before it reaches the peer's handler (the
+	// default schedule then matches reality: every node handles its tick before the partials of that tick arrive)
+	Latency time.Duration
+	Log     func(string, ...any)
 }
 
 func NewNet(k *Keys) *Net {
@@ -512,6 +515,9 @@ func (c *Client) PartialBeacon(ctx context.Context, p dnet.Peer, in *proto.Parti
 	if c.net.OnSend != nil {
 		c.net.OnSend(d)
 	}
+	if c.net.Latency > 0 {
+		c.self.Clock.Sleep(c.net.Latency)
+	}
 	if !c.reachable(to) {
 		return fmt.Errorf("bnet: %s unreachable", p.Address())
 	}
@@ -557,6 +563,7 @@ func (s *chanStream) Send(b *proto.BeaconPacket) error {
 
 func (c *Client) SyncChain(ctx context.Context, p dnet.Peer, in *proto.SyncRequest, _ ...dnet.CallOption) (chan *proto.BeaconPacket, error) {
 	to := c.net.byAddr[p.Address()]
+	c.net.logf("net: node %d opens SyncChain to %s from round %d", c.self.Idx, p.Address(), in.FromRound)
 	if c.net.SyncServe != nil {
 		ti := -1
 		if to != nil {
@@ -578,6 +585,9 @@ func (n *Net) ServeSync(ctx context.Context, from, to *Node, in *proto.SyncReque
 	store := to.H.Store()
 	vrt.GoNamed(fmt.Sprintf("syncserver-%d->%d", to.Idx, from.Idx), func() {
 		defer cancel()
+		if n.Latency > 0 {
+			from.Clock.Sleep(n.Latency)
+		}
 		err := beacon.SyncChain(fix.Logger(), store, in, st)
 		n.logf("net: SyncChain server %d for %d ended: %v", to.Idx, from.Idx, err)
 		vrt.Close(ch, func() { close(ch) })
